@@ -46,11 +46,11 @@ PROPS = {
                       'state and arguments. Determinism: verified executable functions are functions of their inputs unless an external '
                       'callee is not; a token scan of the builder-side sources for RandomState / HashMap / thread_local / static mut / clock / '
                       'env / pointer casts is reported as a checked frame condition (not a proof).',
-        'level_note': 'extend_stream not decided; "across processes and threads" not applicable (no thread or process model). '
+        'level_note': '"Across processes and threads" not applicable (no thread or process model); extend_stream (raw, map, set) is verified like extend_iter. '
                       'memory()/into_fst/into_map/into_set, from_iter (Map, Set), Fst::from_iter_set/from_iter_map and extend_iter are verified on '
                       'their real bodies: each is the same insert/add sequence on the same raw builder, over Vec<u8> as an infallible sink.',
         'explanation': '',
-        'assumptions': ['determinism scan is syntactic', 'extend_stream not decided', 'processes / threads: not applicable'],
+        'assumptions': ['determinism scan is syntactic', 'processes / threads: not applicable'],
     },
     'C01': {
         'units': ['builder', 'encode', 'layout', 'decode', 'registry', 'bytesio', 'cw', 'stream', 'open', 'compose'],
@@ -142,13 +142,13 @@ PROPS = {
                       'predecessor), so a finished file has at most 1 + tsz(keys) nodes.',
         'level_note': '"As long as no eviction has happened" is stated per call of Builder::compile (the only function that writes nodes or '
                       'touches the cache) plus a state theorem; the induction over the calls of one build is not a single mechanised statement. '
-                      'tsz(keys) is the recurrence "each key adds the bytes it does not share with its predecessor" - that this is the number '
-                      'of non-root nodes of the prefix trie of a sorted key list is the standard argument, not mechanised. The sharing ratio on '
+                      'tsz(keys) is the recurrence "each key adds the bytes it does not share with its predecessor"; unit compose proves '
+                      '(thm_trie_size) that 1 + tsz(keys) is the number of distinct prefixes of a sorted key list - the nodes of its trie. The sharing ratio on '
                       'the shipped corpora is an empirical clause no contract decides (a smaller but well-formed cache geometry passes). '
                       'Registry::new (vec![cell; n]) and the derived PartialEq of BuilderNode are assumed.',
         'explanation': '',
         'assumptions': ['corpus sharing ratio: not decidable by a function contract (DESIGN.md section 10)',
-                        'trie size as the recurrence tsz: identification with the cardinality of the prefix set argued'],
+                        ],
     },
     'C03': {
         'units': ['stream', 'decode', 'builder', 'encode', 'bytesio', 'cw', 'layout', 'compose'],
